@@ -1011,13 +1011,18 @@ class HyperbandScheduler(
         # Check whether searcher was already updated based on ``result``
         trial_id = str(trial.trial_id)
         largest_update_resource = self._active_trials[trial_id].largest_update_resource
-        resource = int(result[self._resource_attr])
-        # If the searcher was never updated for this trial (it completed before
-        # reaching its first rung level), the final result must be passed as
-        # well. Otherwise, the searcher forgets about the configuration and may
-        # suggest it again
-        if largest_update_resource is None or resource > largest_update_resource:
-            super().on_trial_complete(trial, result)
+        if largest_update_resource is not None:
+            resource = int(result[self._resource_attr])
+            # With ``searcher_data == "rungs"``, the searcher only receives data
+            # at rung levels (surrogate models such as the one of HyperTune are
+            # not defined elsewhere): this also holds for the final result of a
+            # trial whose script ends in between rung levels
+            if resource > largest_update_resource and (
+                self.searcher_data != "rungs"
+                or resource in self.rung_levels
+                or resource == self.max_t
+            ):
+                super().on_trial_complete(trial, result)
         # Remove pending evaluations, in case there are still some
         self.searcher.cleanup_pending(trial_id)
         self._cleanup_trial(trial_id, trial_decision=SchedulerDecision.STOP)
